@@ -86,22 +86,51 @@ def classify(bad_entry, evs):
     return None
 
 
+def same_term_after_race(bad_entry, evs):
+    """The update/reset race (C02-upd-reset-race) lowers the STORED window; it never moves the serving member's memory back.
+    A duplicate or an order violation can follow from it only through a member that synchronises from the lowered window,
+    i.e. after a campaign. A C01 clause violated with no campaign between the racing reset and the violation is therefore
+    not a consequence of that finding."""
+    tr, clause, line = bad_entry
+    if clause not in ('Unique', 'RealTimeOrder'):
+        return False
+    lo = line - 1
+    while lo > 0 and evs[lo].get('ev') != 'reset':
+        lo -= 1
+    prefix = evs[lo + 1:line]
+    parked = set()
+    race_at = None
+    for i, e in enumerate(prefix):
+        m, a = e.get('m'), e['ev']
+        if a == 'UpdRead' and e.get('res') == 'parked':
+            parked.add(m)
+        elif a in ('UpdSave', 'Crash'):
+            parked.discard(m)
+        elif a == 'ResetUser' and m in parked and race_at is None:
+            race_at = i
+    if race_at is None:
+        return False
+    return not any(e['ev'] in ('Campaign', 'SyncLoad', 'SyncSave', 'Crash', 'DeleteKey', 'StepDown', 'Delete', 'Resign', 'Expire') for e in prefix[race_at:])
+
+
 def handle_bad(ctx, clauses, bad, evs, label):
     """classify every violation of a recording: known finding (taints the rest of its trace) or unknown -> report"""
     findings = [f for f in vlib.load_findings() if f.get('property') in ('C01', 'C02') and f.get('status') == 'open']
-    tainted = set()
+    tainted = {}
     hits = []
     for b in bad:
-        if b[0] in tainted:
+        if b[0] in tainted and not (tainted[b[0]] == 'C02-upd-reset-race' and same_term_after_race(b, evs)):
             continue
         sig = classify(b, evs)
+        if sig == 'C02-upd-reset-race' and same_term_after_race(b, evs):
+            sig = None
         known = sorted([f for f in findings if f.get('signature') == sig], key=lambda f: f['property'] != ctx.pid)
         if known:
             if known[0]['property'] != ctx.pid and b[1] in clauses:
                 k = 'violations_explained_by_a_known_finding_of_another_property'
                 ctx.extra.setdefault(k, {})[known[0]['id']] = ctx.extra.get(k, {}).get(known[0]['id'], 0) + 1
             # a known defect has corrupted this trace; later violations in it are consequences
-            tainted.add(b[0])
+            tainted[b[0]] = sig
             hits.append(known[0]['id'])
             if known[0]['property'] == ctx.pid:
                 ctx.known_hits[known[0]['id']] = ctx.known_hits.get(known[0]['id'], 0) + 1
@@ -116,7 +145,7 @@ def handle_bad(ctx, clauses, bad, evs, label):
             for e in evs[lo:b[2]]:
                 f.write(json.dumps(e) + '\n')
         ctx.report(b[1], sig, one, None, None, '%s_beh%d' % (label, b[0]))
-        tainted.add(b[0])
+        tainted[b[0]] = 'reported'
     return hits
 
 
